@@ -129,6 +129,10 @@ def declare3(S: Spec):
 
 def declare4(S: Spec):
     upd = S.fns[f"{MO}:update_state"]
+    upd.native_ensures.append(("failure-counter-counts-failed-containers",
+                               "C18| all(s.pipeline_failures[key] == old(s.pipeline_failures.get(key, 0))"
+                               " + len([r for r in results if r.error is not None and r.ops[0].pipeline.pipeline_id == key])"
+                               " for key in keys(s.pipeline_failures))"))
     # monitored natively only (not discharged deductively in this revision): completeness of the ready queue
     upd.native_ensures.append(("ready-work-of-touched-pipelines-queued",
                                "C18| all(ReadyQueued(s, p) or any(p2.pipeline_id == p.pipeline_id and p2 is not p for p2 in pipelines) for p in pipelines)"
